@@ -11,7 +11,8 @@
      Objects::read_xref (QPDF_objects.cc)                              c4_xwalk / c4_read_xref
      Pages::cache /Parent climb, Pages::getAllPagesInternal            c4_pclimb, c4_pwalk / c4_pages
      NNTreeIterator::deepen, NNTreeIterator::increment (forward
-       iteration of a whole tree), NNTreeImpl::findInternal            c4_deepen, c4_nn_next / c4_nn_iter, c4_nn_find
+       iteration of a whole tree), NNTreeImpl::validate / repair / findInternal
+                                                                      c4_deepen, c4_nn_walk / c4_nn_iter / c4_nn_validate / c4_nn_repair / c4_nn_open, c4_nn_find
      QPDFOutlineDocumentHelper::validate + QPDFOutlineObjectHelper     c4_ochain, c4_ocreate / c4_outlines
      AcroForm::traverseField, FormNode::inherited                      c4_finherit, c4_ftrav / c4_acroform
      Parser nesting limit and Parser::check_too_many_bad_tokens        c4_nest_run, c4_bad_check / c4_bad_run
@@ -24,7 +25,10 @@
        "Loop detected in /Pages structure";
      * NNTreeIterator::deepen only remembers the nodes on the current path, so iterating a name/number tree whose
        nodes are shared (a DAG) expands it completely: the number of leaf visits is exponential in the number of
-       objects (c4_nn_iter; refuted linear bound in C04GuardProofs.v; finding D-C04-nntree-dag);
+       objects (c4_nn_iter; refuted linear bound in C04GuardProofs.v).  Since the repair of D-C04-nntree-dag the loop of
+       NNTreeImpl::repair() stops after 1000 re-entered leaves (c4_nn_repair), and validate() ends at the first re-entered
+       leaf because its keys are not above the last key: every user inside the library opens a tree through
+       validate(true) (c4_nn_open).  The plain iteration of the public helpers is unchanged (D-C04-nntree-dag-api);
      * QPDFOutlineObjectHelper checks the document-wide seen set only AFTER the helper has been created and cuts
        at depth 50 silently: helpers for already seen nodes are created (childless) once per referencing sibling
        chain, which is quadratic in the worst case, every one of them with a warning;
@@ -218,7 +222,9 @@ Record c4_nnode := mkC4nnode {
   c4n_items : N;         (* size of the /Names or /Nums array (0 when absent) *)
   c4n_hasitems : bool;   (* the items key is an array *)
   c4n_kids : list N;     (* /Kids; ids outside the graph are not dictionaries *)
-  c4n_pick : option nat  (* findInternal: index binarySearch returns among the kids for the probe key; None = -1 *)
+  c4n_pick : option nat; (* findInternal: index binarySearch returns among the kids for the probe key; None = -1 *)
+  c4n_klo : N;           (* a leaf's smallest and largest key (its first and last item when the leaf is sorted) *)
+  c4n_khi : N
 }.
 Inductive c4_dwarn := C4dLoop | C4dNonDict | C4dNeither | C4dBadKid.
 Inductive c4_dres :=
@@ -256,23 +262,27 @@ Fixpoint c4_deepen (fuel : nat) (g : list (N * c4_nnode)) (a : N) (first allow_e
   end.
 
 Record c4_ist := mkC4ist { c4i_entries : N; c4i_leaves : N; c4i_warns : N }.
+Inductive c4_wend := C4wDone | C4wStopped | C4wFuel.
 
 (* NNTreeIterator::increment(false) after the items of the current leaf are exhausted: walk the path upwards,
    getNextKid (skipping kids that have neither /Kids nor the items key, with a warning), deepen(kid, true, false);
    when deepen fails the path is the one getNextKid left, so the search continues with the following sibling.
-   The step counter is the fuel; `false` = fuel exhausted (the caller's cap). *)
-Fixpoint c4_nn_next (fuel : nat) (g : list (N * c4_nnode)) (path : list (N * nat)) (st : c4_ist) : c4_ist * bool :=
+   `visit leaf node st` is the body of the caller's loop for the items of one leaf (it may stop the loop: break /
+   exception), `warn` what NNTreeImpl::warn does to the caller's state.  The step counter is the fuel; C4wFuel =
+   fuel exhausted (the caller's cap). *)
+Fixpoint c4_nn_walk {T : Type} (visit : N -> c4_nnode -> T -> T * bool) (warn : T -> T)
+                    (fuel : nat) (g : list (N * c4_nnode)) (path : list (N * nat)) (st : T) : T * c4_wend :=
   match fuel with
-  | O => (st, false)
+  | O => (st, C4wFuel)
   | S f =>
     match path with
-    | [] => (st, true)
+    | [] => (st, C4wDone)
     | (n, k) :: rest =>
       match c4_find g n with
-      | None => (st, true)
+      | None => (st, C4wDone)
       | Some nd =>
         match nth_error (c4n_kids nd) (S k) with
-        | None => c4_nn_next f g rest st
+        | None => c4_nn_walk visit warn f g rest st
         | Some kid =>
           let path1 := (n, S k) :: rest in
           let usable := match c4_find g kid with
@@ -280,30 +290,87 @@ Fixpoint c4_nn_next (fuel : nat) (g : list (N * c4_nnode)) (path : list (N * nat
                         | None => false
                         end in
           if negb usable
-          then c4_nn_next f g path1 (mkC4ist (c4i_entries st) (c4i_leaves st) (c4i_warns st + 1))
+          then c4_nn_walk visit warn f g path1 (warn st)
           else match c4_deepen (S (length g)) g kid true false path1 (map fst path1) with
                | C4dLeaf path' leaf =>
-                   let ne := match c4_find g leaf with Some ld => c4n_items ld / 2 | None => 0 end in
-                   c4_nn_next f g path' (mkC4ist (c4i_entries st + ne) (c4i_leaves st + 1) (c4i_warns st))
-               | C4dEmpty path' _ => c4_nn_next f g path' st
-               | C4dFail _ => c4_nn_next f g path1 (mkC4ist (c4i_entries st) (c4i_leaves st) (c4i_warns st + 1))
-               | C4dFuel => (st, false)
+                   match c4_find g leaf with
+                   | Some ld => let '(st', go) := visit leaf ld st in
+                                if go then c4_nn_walk visit warn f g path' st' else (st', C4wStopped)
+                   | None => c4_nn_walk visit warn f g path' st
+                   end
+               | C4dEmpty path' _ => c4_nn_walk visit warn f g path' st
+               | C4dFail _ => c4_nn_walk visit warn f g path1 (warn st)
+               | C4dFuel => (st, C4wFuel)
                end
         end
       end
     end
   end.
 
-(* for (auto const& item: tree): begin() = deepen(root, true, true), then ++ until end *)
-Definition c4_nn_iter (cap : nat) (g : list (N * c4_nnode)) (root : N) : c4_ist * bool :=
+(* for (auto it = begin(); it != end(); ++it) body:  begin() = deepen(root, true, true), then ++ until end *)
+Definition c4_nn_foreach {T : Type} (visit : N -> c4_nnode -> T -> T * bool) (warn : T -> T)
+                         (cap : nat) (g : list (N * c4_nnode)) (root : N) (st : T) : T * c4_wend :=
   match c4_deepen (S (length g)) g root true true [] [] with
   | C4dLeaf path leaf =>
-      let ne := match c4_find g leaf with Some ld => c4n_items ld / 2 | None => 0 end in
-      c4_nn_next cap g path (mkC4ist ne 1 0)
-  | C4dEmpty _ _ => (mkC4ist 0 0 0, true)
-  | C4dFail _ => (mkC4ist 0 0 1, true)
-  | C4dFuel => (mkC4ist 0 0 0, false)
+      match c4_find g leaf with
+      | Some ld => let '(st', go) := visit leaf ld st in
+                   if go then c4_nn_walk visit warn cap g path st' else (st', C4wStopped)
+      | None => (st, C4wDone)
+      end
+  | C4dEmpty _ _ => (st, C4wDone)
+  | C4dFail _ => (warn st, C4wDone)
+  | C4dFuel => (st, C4wFuel)
   end.
+
+(* the plain iteration of the public API (for (auto const& item: tree), getAsMap, ...): NO guard beyond the nodes of the
+   current path.  Until the repair of D-C04-nntree-dag this was also the loop of NNTreeImpl::repair(). *)
+Definition c4_nn_iter (cap : nat) (g : list (N * c4_nnode)) (root : N) : c4_ist * bool :=
+  let '(st, e) := c4_nn_foreach
+                    (fun _ ld st => (mkC4ist (c4i_entries st + c4n_items ld / 2) (c4i_leaves st + 1) (c4i_warns st), true))
+                    (fun st => mkC4ist (c4i_entries st) (c4i_leaves st) (c4i_warns st + 1))
+                    cap g root (mkC4ist 0 0 0) in
+  (st, match e with C4wFuel => false | _ => true end).
+
+(* NNTreeImpl::validate(): the same iteration with `compareKeys(last_key, key) != -1 -> error("keys are not sorted")`.
+   Entering a leaf whose smallest key is not above the last key seen ends the loop with the error (also a leaf that
+   is not sorted in itself, abstracted to khi < klo).  c4v_seen: the leaves accepted so far (for the proofs). *)
+Record c4_vst := mkC4vst { c4v_first : bool; c4v_last : N; c4v_seen : list N; c4v_leaves : N; c4v_warns : N; c4v_err : bool }.
+Definition c4_nn_vvisit (leaf : N) (ld : c4_nnode) (st : c4_vst) : c4_vst * bool :=
+  if c4v_err st then (st, false)
+  else if (negb (c4v_first st) && (c4n_klo ld <=? c4v_last st)) || (c4n_khi ld <? c4n_klo ld)
+  then (mkC4vst (c4v_first st) (c4v_last st) (c4v_seen st) (c4v_leaves st + 1) (c4v_warns st) true, false)
+  else (mkC4vst false (c4n_khi ld) (leaf :: c4v_seen st) (c4v_leaves st + 1) (c4v_warns st) false, true).
+Definition c4_nn_vwarn (st : c4_vst) : c4_vst :=
+  mkC4vst (c4v_first st) (c4v_last st) (c4v_seen st) (c4v_leaves st) (c4v_warns st + 1) (c4v_err st).
+Definition c4_nn_validate (cap : nat) (g : list (N * c4_nnode)) (root : N) : c4_vst * c4_wend :=
+  c4_nn_foreach c4_nn_vvisit c4_nn_vwarn cap g root (mkC4vst true 0 [] 0 0 false).
+
+(* NNTreeImpl::repair() as repaired (fix of D-C04-nntree-dag):
+     QPDFObjGen::set seen_leaves; size_t reentered = 0;
+     for (auto it = begin(); it != end(); ++it) {
+         if (it.item_number == 0 && !seen_leaves.add(it.node.id_gen()) && ++reentered > 1000) { warn(...); break; }
+         ... items.insert_or_assign(key, value) ... }
+   c4rp_distinct: number of items collected (the items of a re-entered leaf are already in the map). *)
+Record c4_rpst := mkC4rpst { c4rp_seen : list N; c4rp_reent : N; c4rp_leaves : N; c4rp_distinct : N; c4rp_warns : N;
+                             c4rp_gaveup : bool }.
+Definition c4_nn_rvisit (leaf : N) (ld : c4_nnode) (st : c4_rpst) : c4_rpst * bool :=
+  if c4rp_gaveup st then (st, false)
+  else let '(ok, seen') := c4_add leaf (c4rp_seen st) in
+       if ok then (mkC4rpst seen' (c4rp_reent st) (c4rp_leaves st + 1) (c4rp_distinct st + c4n_items ld / 2) (c4rp_warns st) false, true)
+       else if 1000 <? c4rp_reent st + 1
+       then (mkC4rpst seen' (c4rp_reent st + 1) (c4rp_leaves st + 1) (c4rp_distinct st) (c4rp_warns st + 1) true, false)
+       else (mkC4rpst seen' (c4rp_reent st + 1) (c4rp_leaves st + 1) (c4rp_distinct st) (c4rp_warns st) false, true).
+Definition c4_nn_rwarn (st : c4_rpst) : c4_rpst :=
+  mkC4rpst (c4rp_seen st) (c4rp_reent st) (c4rp_leaves st) (c4rp_distinct st) (c4rp_warns st + 1) (c4rp_gaveup st).
+Definition c4_nn_repair (cap : nat) (g : list (N * c4_nnode)) (root : N) : c4_rpst * c4_wend :=
+  c4_nn_foreach c4_nn_rvisit c4_nn_rwarn cap g root (mkC4rpst [] 0 0 0 0 false).
+
+(* what every library-internal user does when it opens a tree (QPDFEmbeddedFileDocumentHelper, QPDFPageLabelDocumentHelper,
+   the named destinations of QPDFOutlineDocumentHelper: validate(true)): validate, and repair when validation failed.
+   After a repair the tree is a freshly built proper tree. *)
+Definition c4_nn_open (cap : nat) (g : list (N * c4_nnode)) (root : N) : (c4_vst * c4_wend) * option (c4_rpst * c4_wend) :=
+  let v := c4_nn_validate cap g root in
+  (v, if c4v_err (fst v) then Some (c4_nn_repair cap g root) else None).
 
 (* NNTreeImpl::findInternal's descent (after the begin() pre-check, which is c4_deepen) *)
 Inductive c4_fres := C4fLeaf (leaf : N) | C4fLoop | C4fBadNode | C4fMinus1 | C4fFuel.
